@@ -92,6 +92,10 @@ def findFrom (pat : Bytes) : Bytes → Nat → Int
 /-- `b.find(pat)` -/
 def findI (b pat : Bytes) : Int := findFrom pat b 0
 
+/-- `SomeIntEnum.get_from_value(x)`: x when it is the value of a member, else the enum's DEFAULT (both as ints) -/
+def enumGetI (e : List (String × Nat)) (dflt : Nat) (x : Int) : Int :=
+  if decide (0 ≤ x) && (e.map Prod.snd).contains x.toNat then x else (dflt : Int)
+
 theorem findFrom_ge (pat : Bytes) (b : Bytes) (i : Nat) : -1 ≤ findFrom pat b i := by
   induction b generalizing i with
   | nil => unfold findFrom; split <;> omega
